@@ -55,3 +55,22 @@ def directional(case):
             if not (abs(got - want) <= 1e-7 * (1 + abs(want)) and abs(got - g) <= 1e-7 * (1 + abs(want))):
                 bad.append(dict(shape=shape, got=float(got), expected=float(want), via_gradient=float(g)))
     return dict(reproduced=bool(bad), failing=bad[:4])
+
+
+@reg('C03.layout')
+def layout(case):
+    """Gradient(f)(X) for X with several axes == gradient at X.ravel() (row-major), whatever the memory layout of X"""
+    import numdifftools as nd
+    w = np.array([1.0, 2.0, 3.0, 4.0, 5.0, 6.0])
+    bad = []
+    for shape in [(2, 2), (2, 3), (3, 2)]:
+        n = shape[0] * shape[1]
+        X = np.arange(1.0, n + 1).reshape(shape) * 0.37
+        f = lambda v: np.sum(w[:n] * np.asarray(v) ** 2)
+        want = 2 * w[:n] * X.ravel()
+        for name, Xv in [('C', X), ('F', np.asfortranarray(X)), ('transposed-view', np.ascontiguousarray(X.T).T)]:
+            for method in ('central', 'forward', 'complex'):
+                got = nd.Gradient(f, method=method)(Xv)
+                if np.shape(got) != want.shape or not np.allclose(got, want, rtol=1e-5, atol=1e-5):
+                    bad.append(dict(layout=name, shape=shape, method=method, got=np.asarray(got).tolist(), expected=want.tolist()))
+    return dict(reproduced=bool(bad), failing=bad[:3], statement='Gradient(f)(X) == gradient of f at X.ravel() for every memory layout of X')
